@@ -4,6 +4,7 @@ use crate::guarded;
 use qrlew::data_type::DataType;
 use qrlew::dialect_translation::{postgresql::PostgreSqlTranslator, sqlite::SQLiteTranslator, RelationWithTranslator};
 use qrlew::hierarchy::Hierarchy;
+use qrlew::builder::Ready as _;
 use qrlew::relation::{
     field::Constraint, Field, JoinOperator, Relation, Schema, Table, Values, Variant as _,
 };
@@ -30,6 +31,13 @@ pub fn tables_from(j: &J) -> R<Hierarchy<Arc<Relation>>> {
             Some(p) => p.iter().map(|s| s.as_str().unwrap_or("").to_string()).collect(),
             None => vec![name.clone()],
         };
+        if let Some(vals) = t["values"].as_array() {
+            // a literal Values relation registered under `name` (its single column carries the same name)
+            let vs: Vec<qrlew::data_type::value::Value> = vals.iter().map(|v| qrlew::data_type::value::Value::integer(v.as_i64().unwrap_or(0))).collect();
+            let rel: Relation = Relation::values().name(name.clone()).values(vs).build();
+            out.push((path, Arc::new(rel)));
+            continue;
+        }
         let mut fields = vec![];
         for f in t["fields"].as_array().ok_or("fields")? {
             let c = match f["constraint"].as_str() {
